@@ -921,7 +921,19 @@ pub fn c16_run(max_n: usize) -> WorldOutcome {
                         send(slice_shreds[i].as_shred().clone()).await;
                     }
                 }
-                tokio::time::sleep(Duration::from_millis(2_000)).await;
+                // wait for quiescence (deep Turbine trees with fanout 1 need many hops)
+                let mut idle = 0;
+                for _ in 0..600 {
+                    tokio::time::sleep(Duration::from_millis(200)).await;
+                    if net.lock().unwrap().queue_len() == 0 {
+                        idle += 1;
+                        if idle >= 3 {
+                            break;
+                        }
+                    } else {
+                        idle = 0;
+                    }
+                }
             })
             .await;
         // analysis on the recording transport
